@@ -4,11 +4,13 @@ import SieveModel.Generated.Tables
 import SieveModel.Model.Client
 import SieveModel.Spec.WF
 import SieveModel.Model.Serialize
+import SieveModel.Model.FilterSet
 /-! Line-protocol driver: one request per line on stdin, one answer per line on stdout. -/
 
 structure DState where
   table : Table := Generated.builtinTable
   client : Client := { r := { buf := [], net := { stream := [], sched := [] } } }
+  fs : FS := []
 
 def kv (fs : List String) (k : String) : String := TableCodec.field fs k
 def kvBytes (fs : List String) (k : String) : Bytes :=
@@ -50,6 +52,40 @@ def showOptBytes : Option Bytes → String
 def showListing : Option (Option Bytes × List Bytes) → String
   | none => "none"
   | some (a, l) => "ls:" ++ (match a with | none => "-" | some x => hexOr x) ++ ":" ++ ",".intercalate (l.map hexOr)
+
+def contentDepth : Content → Nat
+  | .plain _ => 0
+  | .wrapped c => contentDepth c + 1
+
+def showFS (fs : FS) : String :=
+  ",".intercalate (fs.map fun f => s!"{hexOr f.name}:{if f.enabled then 1 else 0}:{contentDepth f.content}:{f.content.core}")
+
+def showFRes : FRes → String
+  | .ret b => if b then "b1" else "b0"
+  | .exists_ => "exists"
+  | .crash => "crash"
+
+def argBytes (s : String) : Bytes := if s == "e" || s == "-" then [] else B.ofHex s
+
+def fsOp (st : DState) (args : List String) : DState × String :=
+  let fin (r : FRes × FS) : DState × String := ({ st with fs := r.2 }, s!"res={showFRes r.1} state={showFS r.2}")
+  match args with
+  | ["new"] => ({ st with fs := [] }, "res=ok state=")
+  | ["add", n, id] => fin (FS.addfilter st.fs (argBytes n) id.toNat!)
+  | ["update", o, n, id] => fin (FS.updatefilter st.fs (argBytes o) (argBytes n) id.toNat!)
+  | ["replace", o, n, id] => fin (FS.replacefilter st.fs (argBytes o) (.plain id.toNat!) (if n == "-" then none else some (argBytes n)))
+  | ["remove", n] => fin (FS.removefilter st.fs (argBytes n))
+  | ["enable", n] => fin (FS.enablefilter st.fs (argBytes n))
+  | ["disable", n] => fin (FS.disablefilter st.fs (argBytes n))
+  | ["move", n, d] => fin (FS.movefilter st.fs (argBytes n) (d == "up"))
+  | ["isdis", n] => (st, s!"res={showBool (FS.isFilterDisabled st.fs (argBytes n))} state={showFS st.fs}")
+  | ["get", n] =>
+    let r := match FS.getfilter st.fs (argBytes n) with
+      | none => "crash"
+      | some none => "none"
+      | some (some c) => s!"c:{contentDepth c}:{c.core}"
+    (st, s!"res={r} state={showFS st.fs}")
+  | _ => (st, "bad-fs-op")
 
 def clientOp (st : DState) (fs : List String) : DState × String :=
   let c0 := st.client
@@ -110,6 +146,7 @@ def answer (st : DState) (line : String) : DState × String :=
     | some d => ({ st with table := st.table.register d }, "ok")
     | none => (st, "bad-def")
   | "c" :: fs => clientOp st fs
+  | "fs" :: args => fsOp st args
   | _ => (st, "bad-request")
 
 partial def loop (h : IO.FS.Stream) (out : IO.FS.Stream) (st : DState) : IO Unit := do
